@@ -22,7 +22,7 @@ Qed.
 Ltac tie_unfold :=
   cbv beta zeta delta [g_upw_skip g_upw_single g_single_cond g_single_new g_comp_cond g_comp_new g_initial_sigma_auto
                        g_sigma_accepted g_use_initial_penalty g_initial_penalty_value g_initial_tol g_next_tol g_proj_bound
-                       g_out_of_iter g_inner_converged g_failure_increment g_norm_e g_is_interrupted g_alm_converged g_exit
+                       g_out_of_iter g_inner_converged g_failure_increment g_norm_e g_is_interrupted g_alm_converged g_interrupted g_exit
                        g_exit_status upd1 initial_sigma_auto sigma_accepted exit_status clamp].
 Ltac tie_bools :=
   repeat match goal with
@@ -110,9 +110,12 @@ Section Tie.
   Lemma gen_alm_converged_eq eps c ne :
     g_alm_converged P eps c ne = (Rle_bool eps (p_tol P) && c && Rle_bool ne (p_dual_tol P)).
   Proof. tie. Qed.
-  Lemma gen_exit_eq a ooi oot : g_exit a ooi oot = (a || ooi || oot).
+  (* ALM's own stop flag enters the exit test as it is read (no negation, no other condition mixed in) *)
+  Lemma gen_interrupted_eq (flag : bool) : g_interrupted flag = flag.
   Proof. tie. Qed.
-  Lemma gen_exit_status_eq a oot ooi : g_exit_status a oot ooi = exit_status a oot ooi.
+  Lemma gen_exit_eq a ooi oot intr : g_exit a ooi oot intr = (a || ooi || oot || intr).
+  Proof. tie. Qed.
+  Lemma gen_exit_status_eq a oot ooi intr : g_exit_status a oot ooi intr = exit_status a oot ooi intr.
   Proof. tie. Qed.
 End Tie.
 
@@ -127,14 +130,14 @@ Section Assembled.
   Proof. rewrite gen_alm_converged_eq, gen_inner_converged_eq. reflexivity. Qed.
 
   Lemma rec_exit_is_generated (r : iter_rec (T:=R)) : (it_i r < p_max_iter P)%nat ->
-    rec_exit P r = g_exit (rec_conv P r) (g_out_of_iter P (it_i r)) (ir_oot (it_res r)).
-  Proof. intros Hi. rewrite gen_exit_eq, gen_out_of_iter_eq by exact Hi. reflexivity. Qed.
+    rec_exit P r = g_exit (rec_conv P r) (g_out_of_iter P (it_i r)) (ir_oot (it_res r)) (g_interrupted (ir_stop (it_res r))).
+  Proof. intros Hi. rewrite gen_exit_eq, gen_interrupted_eq, gen_out_of_iter_eq by exact Hi. reflexivity. Qed.
 
   Lemma rec_status_is_generated (r : iter_rec (T:=R)) : (it_i r < p_max_iter P)%nat ->
     rec_status P r =
       if g_is_interrupted (ir_status (it_res r)) then Interrupted
-      else g_exit_status (rec_conv P r) (ir_oot (it_res r)) (g_out_of_iter P (it_i r)).
-  Proof. intros Hi. rewrite gen_is_interrupted_eq, gen_exit_status_eq, gen_out_of_iter_eq by exact Hi. reflexivity. Qed.
+      else g_exit_status (rec_conv P r) (ir_oot (it_res r)) (g_out_of_iter P (it_i r)) (g_interrupted (ir_stop (it_res r))).
+  Proof. intros Hi. rewrite gen_is_interrupted_eq, gen_exit_status_eq, gen_interrupted_eq, gen_out_of_iter_eq by exact Hi. reflexivity. Qed.
 
   Lemma next_is_generated i (s : st (T:=R)) (r : inner_res (T:=R)) :
     let err := err_of pb s r in
@@ -184,6 +187,12 @@ Proof. vm_compute. reflexivity. Qed.
 Lemma gen_opts_m0_spec :
   has "always_overwrite_results" "true" g_opts_m0 && has "max_time" "params.max_time" g_opts_m0 &&
   has "tolerance" "params.tolerance" g_opts_m0 && has "check" "false" g_opts_m0 = true.
+Proof. vm_compute. reflexivity. Qed.
+
+(* ---- ALMSolver::stop() as written in outer/alm.hpp: sets ALM's own flag AND forwards to the inner solver ---- *)
+Lemma gen_stop_body_spec :
+  existsb (fun kv => String.eqb (fst kv) "stop_signal.stop()") g_stop_body &&
+  existsb (fun kv => String.eqb (fst kv) "inner_solver.stop()") g_stop_body = true.
 Proof. vm_compute. reflexivity. Qed.
 
 (* ---- G5: the five shipped accumulators ---- *)
